@@ -24,7 +24,7 @@ REAL = ["rpyc.utils.classic upload/upload_file/upload_dir/download/download_file
         "(modules namespace, builtin.open)", "netref / protocol / brine / channel / stream", "the real file system (scratch directory)"]
 STUB = ["sockets/time/locks (simulator)", "os.listdir returns sorted names during a run (determinism)"]
 ASSUMPTIONS = ["local file system behaves (tmpfs/ext4 under /tmp)"]
-PROBES = ["c20:multi-chunk-file", "c20:empty-dir", "c20:filtered-out", "c20:download", "c20:upload"]
+PROBES = ["c20:multi-chunk-file", "c20:empty-dir", "c20:filtered-out", "c20:download", "c20:upload", "c20:separate-namespaces"]
 CHUNK = 10
 
 
@@ -91,6 +91,52 @@ FILTERS = {
 }
 
 
+class _JailPath(object):
+    """os.path as the peer sees it: the peer's '/' is a directory of its own (another host, container or chroot)"""
+
+    def __init__(self, root):
+        self._root = root
+
+    def _real(self, p):
+        return os.path.join(self._root, os.fspath(p).lstrip("/"))
+
+    def isdir(self, p):
+        return os.path.isdir(self._real(p))
+
+    def isfile(self, p):
+        return os.path.isfile(self._real(p))
+
+    def exists(self, p):
+        return os.path.exists(self._real(p))
+
+    def join(self, *a):
+        import posixpath
+        return posixpath.join(*a)
+
+
+class _JailOS(object):
+    def __init__(self, root):
+        self.path = _JailPath(root)
+        self.sep = "/"
+
+    def listdir(self, p):
+        return sorted(os.listdir(self.path._real(p)))
+
+    def makedirs(self, p, *a, **k):
+        return os.makedirs(self.path._real(p), *a, **k)
+
+    def mkdir(self, p, *a):
+        return os.mkdir(self.path._real(p), *a)
+
+
+class _JailBuiltins(object):
+    def __init__(self, root):
+        self._p = _JailPath(root)
+
+    def open(self, p, mode="r", *a, **k):
+        return open(self._p._real(p), mode, *a, **k)
+
+
 def run_one(choices, params):
     import rpyc
     from rpyc.utils import classic
@@ -109,11 +155,19 @@ def run_one(choices, params):
     single = w.draw(5) == 0
     dest_exists = bool(w.draw(2))
     tree = gen_tree(w, chunk)
+    jailed = bool(w.draw(2))        # the peer has a file-system namespace of its own (as a peer on another host has)
     info = {}
     BASE = base_dir()
     if os.path.exists(BASE):
         shutil.rmtree(BASE, ignore_errors=True)
     src, dst = os.path.join(BASE, "src"), os.path.join(BASE, "dst")
+    RROOT = os.path.join(BASE, "peer-root")
+    # paths as each side names them: (local name, name on the peer, real location)
+    if jailed:
+        if direction == "upload":
+            r_dst, dst = "/dst", os.path.join(RROOT, "dst")
+        else:
+            r_src, src = "/src", os.path.join(RROOT, "src")
     real_listdir = os.listdir
 
     def sorted_listdir(*a):
@@ -125,8 +179,29 @@ def run_one(choices, params):
         if dest_exists:
             pre = {"already here.txt": b"old"}
             write_tree(dst, pre if not single else {})
-        ca, cb, _, srv = pair.connect_pair_serving(k, rpyc.ClassicService(), rpyc.SlaveService(), compress=(bool(c.draw(2)), bool(c.draw(2))))
+        if jailed:
+            os.makedirs(RROOT, exist_ok=True)
+            jos, jbi = _JailOS(RROOT), _JailBuiltins(RROOT)
+
+            class PeerService(rpyc.SlaveService):
+                __slots__ = ()
+
+                def getmodule(self, name):
+                    if name == "os":
+                        return jos
+                    if name == "builtins":
+                        return jbi
+                    return rpyc.SlaveService.getmodule(self, name)
+            peer_service = PeerService()
+            sim.count("c20:separate-namespaces")
+        else:
+            peer_service = rpyc.SlaveService()
+        ca, cb, _, srv = pair.connect_pair_serving(k, rpyc.ClassicService(), peer_service, compress=(bool(c.draw(2)), bool(c.draw(2))))
         sim.count("c20:" + direction)
+        # the names used in the calls: local paths are real paths; the peer's paths are the peer's names
+        l_src, l_dst = src, dst
+        p_src = "/src" if (jailed and direction == "download") else src
+        p_dst = "/dst" if (jailed and direction == "upload") else dst
         if single:
             # file to file
             files = [(n, v) for n, v in tree.items() if not isinstance(v, dict)]
@@ -137,18 +212,18 @@ def run_one(choices, params):
             os.makedirs(dst, exist_ok=True)
             target = os.path.join(dst, "copy of " + name)
             if direction == "upload":
-                classic.upload(ca, os.path.join(src, name), target, chunk_size=chunk)
+                classic.upload(ca, os.path.join(l_src, name), p_dst + "/" + "copy of " + name, chunk_size=chunk)
             else:
-                classic.download(ca, os.path.join(src, name), target, chunk_size=chunk)
+                classic.download(ca, p_src + "/" + name, target, chunk_size=chunk)
             got = read_tree(dst)
             want = {"copy of " + name: content}
             if len(content) > chunk:
                 sim.count("c20:multi-chunk-file")
         else:
             if direction == "upload":
-                classic.upload(ca, src, dst, filter=flt, chunk_size=chunk)
+                classic.upload(ca, l_src, p_dst, filter=flt, chunk_size=chunk)
             else:
-                classic.download(ca, src, dst, filter=flt, chunk_size=chunk)
+                classic.download(ca, p_src, l_dst, filter=flt, chunk_size=chunk)
             got = read_tree(dst)
             want = prune(tree, flt)
             want.update(pre)
